@@ -15,7 +15,8 @@ LEAN = os.path.join(ROOT, "lean")
 BUILD = os.path.join(ROOT, ".build")
 BIN = os.path.join(BUILD, "bin")
 REPLAYS = os.path.join(ROOT, "replays")
-EVIDENCE = os.path.join(ROOT, "evidence")
+# mutation trials (VERIF_REPO != /repo) must never overwrite the committed evidence or replays
+EVIDENCE = os.path.join(ROOT, "evidence") if REPO == "/repo" else os.path.join(BUILD, "evidence-mut")
 ORACLE = os.path.join(LEAN, ".lake", "build", "bin", "oracle")
 
 MAX_VIOLATION_LINES = 10
